@@ -42,6 +42,7 @@ theorem rtsp_deliver_only_on_recv (evs : List Ev) (p q : Trace) (e : Ev) (o : Li
   cases e with
   | send => obtain ⟨r', c, ho, _⟩ := hl; rw [ho] at hd; simp at hd
   | burn => have : o = [] := hl; rw [this] at hd; cases hd
+  | msg kd k' v' => have : o = [] := hl; rw [this] at hd; cases hd
   | recv k' v' => exact ⟨k', v', rfl⟩
   | timeout r' =>
     rcases hl with ho | ⟨ho, _⟩ <;> rw [ho] at hd <;> simp at hd
